@@ -29,7 +29,7 @@ def build(tier, seed):
                 'generator}; non-trivial = word not identically zero' % (L, list(DTS)),
         'bounds': {'alphabet': SIGMA, 'max_len': L, 'dt': DTS, 'trap': [True, False]},
         'required_classes': ['trap', 'rect', 'const-acc', 'linear-acc', 'neg-peak-dominant', 'pos-peak-dominant',
-                             'prefix-edge', 'int-input', 'object-reused', 'dtype-variant', 'extreme-scale', 'object-after-edit', 'object-after-query'],
+                             'prefix-edge', 'int-input', 'object-reused', 'dtype-variant', 'extreme-scale', 'object-after-edit', 'object-after-query', 'narrow-int-record'],
         'assumptions': ['sample values outside {-2..2} and lengths above the bound are not examined',
                         'dt only on the menu', 'reference: exact rational cumulative sums (fractions.Fraction)'],
     }
@@ -94,11 +94,9 @@ def run_case(w):
                 ('alias', lambda: displacements.velocity_and_displacement_from_acceleration(a_f, dt, trap=trap)),
                 ('alias-positional', lambda: displacements.velocity_and_displacement_from_acceleration(a_f, dt, trap)),
             ]
-            if trap:
-                # python sequences are accepted by the trapezoid path (the rectangle path multiplies the record by dt and has never
-                # accepted a list - outside the property, noted in DESIGN.md 10.3)
-                entries.append(('array-list', lambda: displacements.calc_velo_and_disp_from_accel_arr([float(x) for x in w], dt, trap=trap)))
-                entries.append(('array-tuple-int', lambda: displacements.calc_velo_and_disp_from_accel_arr(tuple(w), dt, trap=trap)))
+            # python sequences (the record is documented as array_like; the rectangle path used to raise TypeError for them - repaired)
+            entries.append(('array-list', lambda: displacements.calc_velo_and_disp_from_accel_arr([float(x) for x in w], dt, trap=trap)))
+            entries.append(('array-tuple-int', lambda: displacements.calc_velo_and_disp_from_accel_arr(tuple(w), dt, trap=trap)))
 
             # sequences on one object: an explicit request for one rule after the other rule's series already exist
             def obj_after_lazy():
@@ -145,6 +143,29 @@ def run_case(w):
                              'series do not start at zero', observed=(v, d))
                 except Exception:
                     r.fail('series.start-zero', s2, 'cannot read first element', observed=(v, d))
+            # narrow / unsigned integer records near the top of their range (digitiser counts): pairwise sums leave the dtype
+            if n <= 5 and dt == DTS[0]:
+                shifted_w = [int(x) + 2 for x in w]
+                for nm, base, k, dty in (('int8x50', w, 50, np.int8), ('int16x15000', w, 15000, np.int16), ('int32x1e9', w, 10 ** 9, np.int32),
+                                         ('uint8x60', shifted_w, 60, np.uint8), ('uint16x16000', shifted_w, 16000, np.uint16)):
+                    rec = (np.array(base, dtype=np.int64) * k).astype(dty)
+                    vb, db = (vref, dref) if base is w else ref_series(base, dt, trap)
+                    vwant, dwant = fl(vb) * k, fl(db) * k
+                    r.cls('narrow-int-record')
+                    for ent, fn in (('array', lambda: displacements.calc_velo_and_disp_from_accel_arr(rec, dt, trap=trap)),
+                                    ('object', lambda: (lambda s_: (s_.generate_displacement_and_velocity_series(trap=trap), (s_.velocity, s_.displacement))[1])(
+                                        eqsig.AccSignal(rec, dt)))):
+                        s2 = dict(sub, entry=ent, record=nm)
+                        ok, out = r.call('series', s2, fn)
+                        if not ok:
+                            continue
+                        try:
+                            v, d = out
+                        except Exception:
+                            r.fail('series', s2, 'result is not a (velocity, displacement) pair', observed=out)
+                            continue
+                        r.expect_close('series.velocity', s2, v, vwant, rtol=1e-9, atol=at_v * k)
+                        r.expect_close('series.displacement', s2, d, dwant, rtol=1e-9, atol=at_d * k)
             # closed forms (independent of the increment recursion)
             if trap and (is_const or is_lin) and 'array-f64' in outs:
                 t = np.arange(n) * dt
